@@ -156,6 +156,16 @@ fn main() {
         vec![Path::Ret],
     );
     big.fns.retain(|f| *f != R1::Zscore);
+    // infinities are ordinary (extreme) values for the order statistics; the normalisations are left out
+    // (inf - inf is not a number)
+    let mut infs = mk(
+        "infinite-values",
+        vec![None, Some(f64::NEG_INFINITY), Some(0.0), Some(1.0), Some(f64::INFINITY)],
+        run.pick(4, 5),
+        vec![ty_v1::<f64, f64>(), ty_v1::<Option<f64>, Option<f64>>(), ty_v1::<f32, f64>()],
+        vec![Path::Ret],
+    );
+    infs.fns.retain(|f| !matches!(f, R1::Zscore | R1::Minmax));
     if let Some(path) = &run.replay {
         let stored = load_replay(path).unwrap_or_else(|e| {
             eprintln!("MACHINERY-ERROR: {e}");
@@ -167,7 +177,7 @@ fn main() {
         if fam_name == "translation-bigint" {
             bigint::check_word(&syms_from_json(&case["word"]), &mut ctx);
         }
-        for f in [&ties, &ties_m, &perms, &big] {
+        for f in [&ties, &ties_m, &perms, &big, &infs] {
             if fam_name.starts_with(&f.name) {
                 if case["shape"].is_string() {
                     check_structured(f, !run.quick(), 2, &mut ctx);
@@ -183,6 +193,7 @@ fn main() {
     let mut total = explore_tree(&ties, run.threads);
     total.merge(explore_tree(&ties_m, run.threads));
     total.merge(explore_tree(&big, run.threads));
+    total.merge(explore_tree(&infs, run.threads));
     let pw = perm_words(perms.max_len);
     let c = par_items(&pw, run.threads, |w, ctx| {
         ctx.states += 1;
